@@ -8,7 +8,10 @@ pub mod c05;
 pub mod c06;
 pub mod c07;
 pub mod c08;
+pub mod c09;
 pub mod c10;
+pub mod c11;
+pub mod c12;
 pub mod c13;
 pub mod c14;
 
@@ -24,7 +27,10 @@ pub fn run(id: &str, cfg: &Cfg) -> Option<Report> {
         "C06" => c06::run(cfg),
         "C07" => c07::run(cfg),
         "C08" => c08::run(cfg),
+        "C09" => c09::run(cfg),
         "C10" => c10::run(cfg),
+        "C11" => c11::run(cfg),
+        "C12" => c12::run(cfg),
         "C13" => c13::run(cfg),
         "C14" => c14::run(cfg),
         _ => return None,
@@ -40,7 +46,10 @@ pub fn replay(id: &str, case: &J) -> Option<i32> {
         "C06" => c06::replay(case),
         "C07" => c07::replay(case),
         "C08" => c08::replay(case),
+        "C09" => c09::replay(case),
         "C10" => c10::replay(case),
+        "C11" => c11::replay(case),
+        "C12" => c12::replay(case),
         "C13" => c13::replay(case),
         "C14" => c14::replay(case),
         _ => return None,
